@@ -21,7 +21,9 @@ def get_supercell_kpts(supercell):
     unit_box = np.stack([x.ravel() for x in np.meshgrid(*[u] * 3, indexing="ij")]).T
     unit_box_ = np.dot(unit_box, np.asarray(supercell.S).T)
     xyz_range = np.stack([f(unit_box_, axis=0) for f in (np.amin, np.amax)]).T
-    kptmesh = np.meshgrid(*[np.arange(*r) for r in xyz_range], indexing="ij")
+    kptmesh = np.meshgrid(
+        *[np.arange(r[0], r[1] + 1) for r in xyz_range], indexing="ij"
+    )
     possible_kpts = np.dot(np.stack([x.ravel() for x in kptmesh]).T, Sinv)
     in_unit_box = (possible_kpts >= 0) * (possible_kpts < 1 - 1e-12)
     select = np.where(np.all(in_unit_box, axis=1))[0]
